@@ -1090,7 +1090,11 @@ private:
            eDefaultElementNSAllocatorBlockSize = 10,
            eDefaultPIAllocatorBlockSize = 10,
            eDefaultTextAllocatorBlockSize = 20,
-           eDefaultTextIWSAllocatorBlockSize = 20 };
+           eDefaultTextIWSAllocatorBlockSize = 20,
+           // The deepest nesting of template instantiations (and xsl:for-each
+           // bodies) that is executed; anything deeper is reported as infinite
+           // recursion instead of running until memory is exhausted.
+           eMaximumTemplateNestingDepth = 100000 };
 
     ElementTemplateElementStackType     m_elementRecursionStack;
 
